@@ -77,7 +77,7 @@ ExpiryViolations(e) ==
   IF e.disabled
   THEN (IF e.deltaMs # 99999 THEN {"NoCloseWhenDisabled"} ELSE {})
   ELSE (IF e.deltaMs < -150 THEN {"NotClosedBeforeExpiry"} ELSE {})
-       \cup (IF e.deltaMs > 700 THEN {"ClosedAtExpiry"} ELSE {})
+       \cup (IF e.deltaMs > 1500 THEN {"ClosedAtExpiry"} ELSE {})
 
 TraceInit == l = 1 /\ viol = {} /\ drift = 0 /\ cands = {InitState}
 TraceNext ==
